@@ -33,7 +33,7 @@
 (* a whole call (or a whole call killed at some program counter) as one    *)
 (* step -- the same reachable idle states, far fewer intermediate ones.    *)
 (***************************************************************************)
-EXTENDS Naturals, Sequences, FiniteSets, TLC, Json, IOUtils
+EXTENDS Naturals, Sequences, FiniteSets, FiniteSetsExt, TLC, Json, IOUtils
 
 CONSTANTS
   World,          \* "plain" | "split" | "broken": table of file contents (below)
@@ -44,7 +44,7 @@ CONSTANTS
   Devs,           \* the mechanism (see above)
   MaxSteps,       \* histories of at most MaxSteps steps (call / killed call / corruption)
   Faults,         \* subset of {"kill", "trunc", "flip"} that may occur
-  Grain,          \* "big" | "small"
+  Grain,          \* "big" | "small" | "sim"
   EditDuringCall, \* small grain only: files may change while a call is running
   Focus,          \* TRUE: only histories whose calls all use one key (see "key independence")
   EmitWhen        \* "all" | "wrong" | "final" | "none": which histories Emit writes
@@ -182,10 +182,15 @@ Steps(D, f, s) ==
          ELSE {Done(s, SpecRet(w.comp))}                                       \* (272)
     [] OTHER -> {}
 
-RECURSIVE ReachN(_, _, _, _)
-ReachN(D, f, S, n) ==
-  IF n = 0 THEN S ELSE ReachN(D, f, S \cup UNION {Steps(D, f, t) : t \in S}, n - 1)
-Reach(D, f, s) == ReachN(D, f, {s}, 9)     \* the longest call takes 9 steps
+\* every state a call can pass through from s on (s included).  Steps has one successor except at
+\* the lookup and at the beginning of the store, so this is a small tree; a call takes <= 9 steps.
+RECURSIVE ReachSeq(_, _, _, _)
+ReachSeq(D, f, s, n) ==
+  IF n = 0 THEN <<s>>
+  ELSE LET nx == Steps(D, f, s)
+       IN IF nx = {} THEN <<s>>
+          ELSE <<s>> \o FoldSet(LAMBDA t, acc : acc \o ReachSeq(D, f, t, n - 1), <<>>, nx)
+Reach(D, f, s) == LET q == ReachSeq(D, f, s, 10) IN {q[j] : j \in 1..Len(q)}
 
 ------------------------------------------------------------------------------
 (* The requirement: what a call returned against an uncached compile of    *)
@@ -232,7 +237,7 @@ vars == <<gFiles, gStore, gDb, gAny, gW, gRet, gObs, gHist>>
 
 \* In the big grain the files on disk are chosen anew by every step, and of the
 \* last verdict only a wrong one needs to be told apart.
-view == IF Grain = "big"
+view == IF Grain # "small"
         THEN <<gStore, gDb, gAny, gObs, IF gRet.k = "wrong" THEN gRet.why ELSE {"-"}>>
         ELSE <<gFiles, gStore, gDb, gAny, gW, gObs, IF gRet.k = "wrong" THEN gRet.why ELSE {"-"}>>
 
@@ -294,25 +299,32 @@ Corrupt == \E how \in {"trunc", "flip"} : CorruptDb(how) \/ \E k \in DOMAIN gSto
 
 At(w) == IF w.pc = "storing" THEN "storing" \o ToString(w.i) ELSE w.pc
 
-BigCall(f2, c) ==
+\* files may have changed since the last step; only the files the call reads matter
+FilesFor(c) == {f \in FileStates : \A p \in Paths : (\A j \in 1..Len(c.fl) : c.fl[j] # p) => f[p] = gFiles[p]}
+
+BigStep(f2, c, which) ==      \* which: "any" | "call" | "kill"
   /\ Room /\ gW.pc = "idle" /\ InFocus(f2, c) /\ Observe(f2, c)
-  /\ \E t \in {t \in Reach(Devs, f2, [Mech EXCEPT !.w = Begin(c)]) : t.w.pc = "done"} :
-       LET v == Verdict(f2, c, t.w.ret, t.any)
-       IN /\ SetMech([t EXCEPT !.w = Idle])
+  /\ LET R == Reach(Devs, f2, [Mech EXCEPT !.w = Begin(c)])
+     IN \E t \in R :
+          /\ t.w.pc = "done" \/ "kill" \in Faults
+          /\ which = "any" \/ (which = "call") = (t.w.pc = "done")
+          /\ SetMech([t EXCEPT !.w = Idle])   \* returned -- or SIGKILL: the process is gone, the directory stays as it is
           /\ gFiles' = f2
-          /\ gRet' = v
-          /\ gHist' = Append(gHist, H("call", f2, c, "-", "-", "-", NoId, v))
+          /\ LET v == IF t.w.pc = "done" THEN Verdict(f2, c, t.w.ret, t.any) ELSE Ok("none")
+             IN /\ gRet' = v
+                /\ gHist' = Append(gHist, IF t.w.pc = "done" THEN H("call", f2, c, "-", "-", "-", NoId, v)
+                                                              ELSE H("kill", f2, c, At(t.w), "-", "-", NoId, v))
 
-BigKill(f2, c) ==
-  /\ Room /\ "kill" \in Faults /\ gW.pc = "idle" /\ InFocus(f2, c) /\ Observe(f2, c)
-  /\ \E t \in {t \in Reach(Devs, f2, [Mech EXCEPT !.w = Begin(c)]) : t.w.pc # "done"} :
-       /\ SetMech([t EXCEPT !.w = Idle])      \* SIGKILL: the process is gone, the directory stays as it is
-       /\ gFiles' = f2
-       /\ gRet' = Ok("none")
-       /\ gHist' = Append(gHist, H("kill", f2, c, At(t.w), "-", "-", NoId, Ok("none")))
-
-BigNext == \/ \E f2 \in FileStates, c \in Calls : BigCall(f2, c) \/ BigKill(f2, c)
+BigNext == \/ \E c \in Calls : \E f2 \in FilesFor(c) : BigStep(f2, c, "any")
            \/ Corrupt
+
+\* simulation of long histories: one random step at a time (TLC -simulate)
+SimNext == LET c == RandomElement(Calls)
+               f2 == RandomElement(FileStates)
+               k == RandomElement(1..20)
+           IN IF k <= 13 \/ Faults = {} THEN BigStep(f2, c, "call")
+              ELSE IF k <= 16 /\ "kill" \in Faults THEN BigStep(f2, c, "kill")
+              ELSE Corrupt \/ BigStep(f2, c, "call")
 
 ------------------------------------------------------------------------------
 (* small grain: one step = one program step; Kill enabled at every pc       *)
@@ -355,7 +367,7 @@ SmallNext == \/ \E p \in Paths, v \in Versions : EditFile(p, v)
              \/ CallStep \/ CallReturn \/ Kill
              \/ Corrupt
 
-Next == IF Grain = "big" THEN BigNext ELSE SmallNext
+Next == IF Grain = "big" THEN BigNext ELSE IF Grain = "sim" THEN SimNext ELSE SmallNext
 Spec == Init /\ [][Next]_vars
 
 ------------------------------------------------------------------------------
